@@ -13,6 +13,8 @@ EXPECTED = [
     ('pathSuffixes', 'List (List Char)', None),   # filled at run time
     ('dottedSepFix', 'Bool', 'false'),
     ('fromImportAttributeFirst', 'Bool', 'true'),
+    ('moduleInfoProducers', 'List String', lean_list(['get_module_info', 'get_module_info'])),
+    ('importModuleFileProbes', 'List String', '[]'),
 ]
 
 
@@ -134,6 +136,40 @@ def _generate(repo, g):
                    "is_global_search=False)"):
         if not has(im, needle):
             raise TieBroken('imports.py: import_module no longer contains `%s`' % needle)
+    # which file a dotted name stands for is decided by the target interpreter's finders ONLY: every producer of
+    # `file_io_or_ns` / `is_pkg` in import_module is a get_module_info call, and import_module (with the helpers it
+    # calls in this file before that) never looks at the file system itself
+    imf = imp.find('import_module')
+    producers = []
+    for n in ast.walk(imf):
+        if isinstance(n, ast.Assign) and any('file_io_or_ns' in u(t) or 'is_pkg' in u(t) for t in n.targets):
+            v = n.value
+            producers.append(u(v.func).split('.')[-1] if isinstance(v, ast.Call) else u(v))
+    g.define('moduleInfoProducers', 'List String', lean_list(producers),
+             'jedi/inference/imports.py:import_module - what `file_io_or_ns, is_pkg` are assigned from')
+    FS = ('os.path.', 'os.listdir', 'os.scandir', 'os.stat', 'os.walk', 'Path(', '.exists(', '.is_file(', '.is_dir(',
+          '.isfile(', '.isdir(', 'glob', 'open(', 'FileIO(', 'FolderIO(')
+    local_funcs = {n.name: n for n in imp.tree.body if isinstance(n, (ast.FunctionDef, ast.AsyncFunctionDef))}
+    probes = []
+    seen = set()
+
+    def scan(fn, depth):
+        if fn.name in seen or depth > 2:
+            return
+        seen.add(fn.name)
+        for c in ast.walk(fn):
+            if isinstance(c, ast.Call):
+                t = u(c.func)
+                if any(k in t + '(' for k in FS):
+                    probes.append('%s: %s' % (fn.name, u(c)[:70]))
+                # helpers defined in imports.py that import_module calls BEFORE it has a file (loaders excluded)
+                if isinstance(c.func, ast.Name) and c.func.id in local_funcs \
+                        and c.func.id not in ('_load_python_module', '_load_builtin_module'):
+                    scan(local_funcs[c.func.id], depth + 1)
+    scan(imf, 0)
+    g.define('importModuleFileProbes', 'List String', lean_list(sorted(set(probes))),
+             'jedi/inference/imports.py:import_module and the module-level helpers it calls before it has a file: '
+             'calls that look at the file system')
     # ---- infer_import: attribute of the package first, then the sub-module
     inf = u(imp.find('infer_import'))
     attr_first = has(inf, 'if from_import_name is not None:\n values = values.py__getattribute__('
